@@ -73,14 +73,22 @@
        window, inside potrf_recursive): success => L L^T = A (U^T U = A), pivots divided by are non-zero, other triangle
        untouched (C02_potrf_rl_blocked_correct, C02_potrf_rl_upper_row_correct); all four (triangle, storage) pairs are now
        compared through the blocked models (potrf_blocked2), incl. the return value and the matrix left behind on failure.
+     * EXTENSION (C02CgModel.v, C02CgProofs.v, C02CgSpdProofs.v): the conjugate-gradient solver cg_solver::cg as coded (vector
+       version with the start-vector test and the repaired return before the loop, matrix version column by column, stopping
+       rule norm_inf(next_residual) < eps, iteration limit; the unbounded loop for maxit = 0 is modelled with fuel): for ANY
+       matrix the maintained residual equals b - A x at every exit (C02_cg_vec_residual, C02_cg_col_residual), so whenever
+       the routine returns through its stopping rule the true residual satisfies the coded threshold
+       (C02_cg_*_stop_true_residual; component-wise C02_cg_vec_stop_pointwise); for definite matrices and eps > 0 no
+       denominator met is zero (C02_cg_*_well_defined; over a formally real field, Qc instance C02_Q_cg_instance).
    ONLY COMPARED / MONITORED by tools/c02.py (no theorem): the value potrf returns on failure (the index is relative to
    the diagonal block that failed; compared with the model); the semi-definite solver with MATRIX right-hand sides (trsm instead of
    trsv: the vector model is applied column by column / row by row and compared exactly) (for column-major storage the
    contract on the potrf of L^T L assumed by C02_semi_solve_with_lsq is what C02_potrf_rl_blocked_correct proves, but the two are
-   not composed into one theorem); symmetric eigen-decomposition, conjugate gradient, the OpenBLAS bindings, all floating-point rounding. *)
+   not composed into one theorem); symmetric eigen-decomposition, termination of conjugate gradient, the OpenBLAS bindings, all floating-point rounding. *)
 From Coq Require Import List Arith Bool Lia Field QArith Qcanon Permutation.
 From SharkV Require Import C02Model C02Proofs C02Q C02QProofs C02BlkModel C02LUProofs C02CholBlkProofs C02BlkTotalProofs C02LURightProofs.
 From SharkV Require Import C02PstrfModel C02PstrfProofs C02PstrfOrdProofs C02PstrfQProofs C02SemiModel C02SemiProofs C02SemiQProofs C02UpdModel C02UpdProofs C02UpdQProofs C02LUMatModel C02LUMatProofs C02LUMatQProofs C02RlModel C02RlProofs C02RlQProofs.
+From SharkV Require Import C02CgModel C02CgProofs C02CgSpdProofs C02CgQProofs.
 Local Close Scope Qc_scope. Local Close Scope Q_scope. Local Open Scope nat_scope.
 
 Section AnyField.
@@ -553,3 +561,78 @@ Theorem C02_Q_rl_hypotheses_satisfiable :
   exists L, potrf_rec_rl Qc (qc_ops ex_sq) 1 1 2 2 0 2 ex_M = BOk Qc L /\ rl_sqrt_exact Qc (qc_ops ex_sq) 2 ex_M L.
 Proof. exact ex_rl_hypotheses_satisfiable. Qed.
 Print Assumptions C02_Q_rl_hypotheses_satisfiable.
+
+(* ================= extension: conjugate gradient  cg_solver / solve(A,b,conjugate_gradient(eps,maxit))  (C02CgModel.v / C02CgProofs.v) ================= *)
+Section Cg.
+Variable A : Type.
+Variable F : ops A.
+Variable fabs : A -> A.
+Hypothesis Fth : field_theory (fzero F) (fone F) (fadd F) (fmul F) (fsub F) (fopp F) (fdiv F) (finv F) (@eq A).
+(* book-keeping invariant, ANY matrix, any start vector, any eps / maxit / fuel, however the run ends: the maintained residual
+   is the true residual b - A x (vector version; one column of the matrix version) *)
+Theorem C02_cg_vec_residual : forall fuel n (M : mat A) eps maxit (x0 b : vec A),
+  let o := cg_vec A F fabs fuel n M eps maxit x0 b in
+  forall i, i < n -> cg_r A o i = fsub F (b i) (mvp A F n M (cg_x A o) i).
+Proof. exact (cg_vec_residual A F fabs Fth). Qed.
+Theorem C02_cg_col_residual : forall fuel n (M : mat A) eps maxit (b : vec A),
+  let o := cg_col A F fabs fuel n M eps maxit b in
+  forall i, i < n -> cg_r A o i = fsub F (b i) (mvp A F n M (cg_x A o) i).
+Proof. exact (cg_col_residual A F fabs Fth). Qed.
+(* hence: whenever the routine returns through its stopping rule (the repaired test before the loop, or the test inside it)
+   the TRUE residual satisfies the coded threshold norm_inf(b - A x) < eps *)
+Theorem C02_cg_vec_stop_true_residual : forall fuel n (M : mat A) eps maxit (x0 b : vec A),
+  let o := cg_vec A F fabs fuel n M eps maxit x0 b in
+  cg_why A o = StopEps \/ cg_why A o = StopInit ->
+  fltb F (ninf A F fabs n (fun i => fsub F (b i) (mvp A F n M (cg_x A o) i))) eps = true.
+Proof. exact (cg_vec_stop_true_residual A F fabs Fth). Qed.
+Theorem C02_cg_col_stop_true_residual : forall fuel n (M : mat A) eps maxit (b : vec A),
+  let o := cg_col A F fabs fuel n M eps maxit b in
+  cg_why A o = StopEps \/ cg_why A o = StopInit ->
+  fltb F (ninf A F fabs n (fun i => fsub F (b i) (mvp A F n M (cg_x A o) i))) eps = true.
+Proof. exact (cg_col_stop_true_residual A F fabs Fth). Qed.
+End Cg.
+Print Assumptions C02_cg_vec_residual.
+Print Assumptions C02_cg_col_residual.
+Print Assumptions C02_cg_vec_stop_true_residual.
+Print Assumptions C02_cg_col_stop_true_residual.
+
+(* ---- conjugate gradient on definite matrices: the step lengths are well defined ---- *)
+Section CgDefinite.
+Variable A : Type.
+Variable F : ops A.
+Variable fabs : A -> A.
+Hypothesis Fth : field_theory (fzero F) (fone F) (fadd F) (fmul F) (fsub F) (fopp F) (fdiv F) (finv F) (@eq A).
+Hypothesis feqb_spec : forall x y, feqb F x y = true <-> x = y.
+Hypothesis abs_0 : fabs (fzero F) = fzero F.
+Hypothesis lt_irrefl : forall x, fltb F x x = false.
+Hypothesis sumsq_nz : forall n v, nonzero A F n v -> dot A F n v v <> fzero F.     (* formally real field *)
+(* definite n M : u^T M u <> 0 for every u <> 0 (positive definite matrices over an ordered field).  With eps > 0 no denominator
+   met by the run -- r.r and p.Ap of every iteration, recorded in cg_dens -- is zero: alpha and beta are never x/0 *)
+Theorem C02_cg_vec_well_defined : forall fuel n (M : mat A) eps maxit (x0 b : vec A), definite A F n M -> fltb F (fzero F) eps = true ->
+  nz_all A F (cg_dens A (cg_vec A F fabs fuel n M eps maxit x0 b)).
+Proof. exact (cg_vec_well_defined A F fabs Fth feqb_spec abs_0 lt_irrefl sumsq_nz). Qed.
+Theorem C02_cg_col_well_defined : forall fuel n (M : mat A) eps maxit (b : vec A), definite A F n M -> fltb F (fzero F) eps = true ->
+  nz_all A F (cg_dens A (cg_col A F fabs fuel n M eps maxit b)).
+Proof. exact (cg_col_well_defined A F fabs Fth feqb_spec abs_0 lt_irrefl sumsq_nz). Qed.
+(* component-wise form of the stopping guarantee: |b_i - (A x)_i| < eps for every i *)
+Hypothesis lt_trans : forall x y z, fltb F y x = false -> fltb F y z = true -> fltb F z x = false.
+Hypothesis lt_le_trans : forall x y z, fltb F y x = false -> fltb F y z = true -> fltb F x z = true.
+Theorem C02_cg_vec_stop_pointwise : forall fuel n (M : mat A) eps maxit (x0 b : vec A),
+  let o := cg_vec A F fabs fuel n M eps maxit x0 b in
+  cg_why A o = StopEps \/ cg_why A o = StopInit ->
+  forall i, i < n -> fltb F (fabs (fsub F (b i) (mvp A F n M (cg_x A o) i))) eps = true.
+Proof. exact (cg_vec_stop_pointwise A F fabs Fth lt_irrefl lt_trans lt_le_trans). Qed.
+End CgDefinite.
+Print Assumptions C02_cg_vec_well_defined.
+Print Assumptions C02_cg_col_well_defined.
+Print Assumptions C02_cg_vec_stop_pointwise.
+(* satisfiable over Qc: sums of squares, a definite matrix, and a run that returns through the stopping rule *)
+Theorem C02_Q_cg_instance : forall sq,
+  (forall n (v : vec Qc), nonzero Qc (qc_ops sq) n v -> dot Qc (qc_ops sq) n v v <> fzero (qc_ops sq)) /\
+  definite Qc cg_F 2 ex_cg_A /\
+  (let o := cg_solve_v Qc cg_F qc_abs 10 2 ex_cg_A ex_cg_eps 0 ex_cg_b in cg_iters Qc o = 2 /\ cg_why Qc o = StopEps).
+Proof.
+  intros sq. split; [exact (qc_sumsq_nz sq)|]. split; [exact ex_cg_definite|].
+  destruct ex_cg_runs as (_ & H2 & H3 & _). split; assumption.
+Qed.
+Print Assumptions C02_Q_cg_instance.
